@@ -527,6 +527,32 @@ Theorem C09_bitor_tail_fits : forall ln rhs_len cap, ln < rhs_len -> bkreq_bitor
 Proof. exact bitor_tail_fits. Qed.
 Print Assumptions C09_bitor_tail_fits.
 
+(** tie to C17's storage machine (Int/StorageModel.v: every allocate / push / ensure_capacity with its capacity
+    assertion as a guard, proved never to trip one by C17_shl / C17_set_bit): whenever the machine returns a
+    Repr, its typed view is word for word the result of the C09 kernel *)
+From Dashu Require Import Int.BitsStorageTie.
+
+Theorem C09_from_buffer_machine_tie : forall w M, 0 < w -> forall b m r m',
+  StorageModel.from_buffer w M b m = Ok (r, m') -> brepr_of_repr w r = BitsKernels.from_buffer w (StorageModel.bws b).
+Proof. exact from_buffer_tie. Qed.
+Print Assumptions C09_from_buffer_machine_tie.
+
+Theorem C09_shl_machine_is_kernel : forall w M, 0 < w -> forall a n m r m', 0 <= n -> brepr_ok w (brepr_of_targ a) ->
+  StorageModel.shl_mag w M a n m = Ok (r, m') ->
+  forall cap, brepr_of_repr w r = ubig_shl_form w (targ_is_ref a) cap (brepr_of_targ a) n.
+Proof. exact shl_machine_is_kernel. Qed.
+Print Assumptions C09_shl_machine_is_kernel.
+
+Theorem C09_set_bit_machine_is_kernel : forall w M, 0 < w -> forall a n m r m', 0 <= n -> brepr_ok w (brepr_of_targ a) ->
+  StorageModel.set_bit w M a n m = Ok (r, m') -> brepr_of_repr w r = repr_set_bit w (brepr_of_targ a) n.
+Proof. exact set_bit_machine_is_kernel. Qed.
+Print Assumptions C09_set_bit_machine_is_kernel.
+
+Example C09_machine_tie_nonvacuous :
+  exists r m', StorageModel.shl_mag 64 1000 (StorageModel.TRefLarge [5; 0; 1]) 130 StorageModel.mem0 = Ok (r, m') /\
+               brepr_of_repr 64 r = BLarge [0; 0; 20; 0; 4].
+Proof. eexists; eexists; split; vm_compute; reflexivity. Qed.
+
 (** non-vacuity of the hypotheses of the round-3 theorems *)
 Example C09_forms_nonvacuous :
   ret_prim_ok OpAnd true (PUnsigned 8) /\ pty_in (PUnsigned 8) 255 = true /\ pty_in (PSigned 16) (-32768) = true /\
